@@ -95,6 +95,12 @@ def b_call(I, T, b, method, *args):
         # direct edit of the public `parts`
         b.fields[1].fields[{'set_namespace': 0, 'set_name': 1, 'set_version': 2, 'set_subpath': 4}[method]] = StringBuf(args[0])
         return b
+    if method == 'typed_model':
+        # a user-written typed qualifier (KnownQualifierKey with the declared key of the given tag)
+        from .qops import MQ_KEYS
+        tag = bytes(args[0]).decode()
+        I.mq_key = MQ_KEYS[tag]
+        return I.call('builder::GenericPurlBuilder::<%s>::with_typed_qualifier::<ModelQual>' % t, [b, Some(Adt('ModelQual', None, [RStr(args[1])]))])
     if method == 'repository_url':
         return I.call("builder::GenericPurlBuilder::<%s>::with_typed_qualifier::<RepositoryUrl<'_>>" % t, [b, Some(Adt('RepositoryUrl', None, [RStr(args[0])]))])
     if method == 'no_repository_url':
